@@ -447,7 +447,7 @@ def bfs(ctx, rep, k, K):
         if h not in seen:
             seen[h] = n
             frontier.append((n, np.asarray(v, dtype=float)))
-    gsub = G if ctx.tier != 'quick' else G[:5]
+    gsub = G[:5] if ctx.tier == 'quick' else alph.subset(G, 12, 5)      # composition letters (every generator is a root)
     ntrans = 0
     for d in range(depth):
         nxt = []
